@@ -70,7 +70,16 @@ def floors(tier):
             "nothing_binds": 300 * k, "spectra_with_zeros": 300 * k, "spectra_all_equal": 50 * k, "single_element_sectors": 500 * k,
             "stage_consistency_checked": 100 * k, "multiplets_hermitian_judged": 40 * k, "decomp_fused": 80 * k, "decomp_lazy": 150 * k, "decomp_dict_by_charge": 40 * k,
             "decomp_designed_spectrum": 100 * k, "mask_f_used": 10 * k,
-            "decomp_dict_asymmetric": 30 * k, "lowrank_judged": 250 * k, "lowrank_arpack_cases": 40 * k, "lowrank_dict_asymmetric": 80 * k,
+            "decomp_dict_asymmetric": 30 * k, "lowrank_judged": 200 * k,
+            "empty_dict:D_block:lowrank": 15 * k, "empty_dict:D_block:fullrank": 15 * k, "empty_dict:tol_block:lowrank": 6 * k,
+            "empty_dict:k_block:lowrank": 6 * k, "empty_dict_policies_compared": 25 * k, "empty_dict:truncation_mask": 20 * k,
+            "scale_invariance_checked": 1500 * k, "scaled_operands": 80 * k, "mask_no_limits": 300 * k,
+            "pure_defaults:svd_with_truncation": 20 * k, "pure_defaults:eigh_with_truncation": 10 * k,
+            "value:D_total=0": 300 * k, "value:D_block=0": 300 * k, "value:tol=0": 300 * k, "value:tol_block=0": 300 * k,
+            "value:tol>=1": 300 * k, "value:tol_block>=1": 300 * k, "spectra_denormal": 100 * k, "spectra_negative_zero": 50 * k,
+            **{f"{name}:{op}{suffix}": n * k for op in ("svd_with_truncation", "eigh_with_truncation")
+               for name, suffix, n in (("lazy_3cycle", "", 15), ("lazy_3cycle_identical_legs", "", 1), ("negaxis_full_range", "", 15),
+                                       ("negaxis_fused_factor", "", 10), ("negaxis", ":-1", 15), ("negaxis", ":-2", 15))}, "lowrank_arpack_cases": 40 * k, "lowrank_dict_asymmetric": 80 * k,
             "lowrank_dict_asymmetric_negated_combo": 30 * k, "lowrank:k_dict": 20 * k, "lowrank:int": 30 * k}
 
 
@@ -442,6 +451,8 @@ def mask_case(ctx, idx, sym):
     ctx.count("spectra_all_equal", int(pat == "all-equal"))
     ctx.count("single_element_sectors", sum(1 for v in blocks.values() if len(v) == 1))
     ctx.count("spectra_signed", int(signed))
+    ctx.count("spectra_denormal", int(bool(np.any((allv != 0) & (np.abs(allv) < 2.3e-308)))))
+    ctx.count("spectra_negative_zero", int(bool(np.any((allv == 0) & np.signbit(allv)))))
     ctx.count("spectra_shuffled", int(shuffled))
     before = {t: v.copy() for t, v in blocks.items()}
     structs = []
@@ -846,18 +857,25 @@ def svd_trunc_case(ctx, idx, sym):
     E = c04.Env(ctx, idx, sym)
     E.ctx = ctx
     rng = E.rng
-    ht = E.tensor()
+    pure = rng.random() < 0.06          # svd_with_truncation(a) on a matrix: no argument at all = plain svd, nothing discarded
+    ht = E.tensor(rank=2 if pure else None)
     designed = rng.random() < 0.45 and bool(ht.blocks)
     state = rng.getstate()
-    operand = F.make_operand(rng, ht, E.cfg)
-    left, right = F.bipartition(rng, operand.nlegs)
+    okw = {"fusion": "none"} if pure else {}
+    operand = F.make_operand(rng, ht, E.cfg, **okw)
+    left, right = ((0,), (1,)) if pure else F.bipartition(rng, operand.nlegs)
     flatL, flatR = F.flat_axes(operand, left), F.flat_axes(operand, right)
     if designed:
         ht = F.redesign_svd(rng, ht, flatL, flatR)
+        ctx.count("decomp_designed_spectrum")
+    csc = F.draw_scale(rng)
+    if csc != 1.0 and ht.blocks:
+        ht = F.scaled(ht, csc)
+        ctx.count("scaled_operands")
+    if designed or csc != 1.0:
         r2 = random.Random()
         r2.setstate(state)
-        operand = F.make_operand(r2, ht, E.cfg)
-        ctx.count("decomp_designed_spectrum")
+        operand = F.make_operand(r2, ht, E.cfg, **okw)
     ctx.count("decomp_fused", int(bool(operand.info["fusion"])))
     ctx.count("decomp_lazy", int(operand.info["state"] != "plain" or operand.info["post"] != "none"))
     axes = F.axes_arg(rng, left, right)
@@ -866,6 +884,8 @@ def svd_trunc_case(ctx, idx, sym):
     base = {"axes": axes, "sU": sU, "nU": nU}
     if rng.random() < 0.3:
         base["fix_signs"] = True
+    if pure:
+        sU, nU, Uaxis, Vaxis, base = 1, True, -1, 0, {}
     Un, Vn = (ht.n, G.zero(sym)) if nU else (G.zero(sym), ht.n)
     sec = F.Sectors(ht, flatL, flatR, sU, Un)
     anorm = F.fro(sec.M)
@@ -880,7 +900,7 @@ def svd_trunc_case(ctx, idx, sym):
     if any(t not in sec.sec for t in full):
         ctx.violation("svd_with_truncation:new-leg-charges", f"sectors {sorted(full)} vs charge conservation {sorted(sec.sec)}", w)
         return
-    mode = rng.choice(("limits", "limits", "limits", "limits", "dict", "dict", "multiplets", "mask_f", "defaults"))
+    mode = "defaults" if pure else rng.choice(("limits", "limits", "limits", "limits", "dict", "dict", "multiplets", "mask_f", "defaults"))
     kw = {}
     if mode == "dict" and not full:
         mode = "defaults"
@@ -910,8 +930,13 @@ def svd_trunc_case(ctx, idx, sym):
                 kw[name] = rng.choice(vals)
         ctx.count("mask_f_used")
     w["kwargs"] = kw_desc(kw)
-    U, S, V = yastn.svd_with_truncation(operand.y, Uaxis=Uaxis, Vaxis=Vaxis, **base, **kw) if rng.random() < 0.7 else \
-        operand.y.svd_with_truncation(Uaxis=Uaxis, Vaxis=Vaxis, **base, **kw)
+    if pure:
+        U, S, V = yastn.svd_with_truncation(operand.y) if rng.random() < 0.7 else operand.y.svd_with_truncation()
+        ctx.count("pure_defaults:svd_with_truncation")
+    else:
+        U, S, V = yastn.svd_with_truncation(operand.y, Uaxis=Uaxis, Vaxis=Vaxis, **base, **kw) if rng.random() < 0.7 else \
+            operand.y.svd_with_truncation(Uaxis=Uaxis, Vaxis=Vaxis, **base, **kw)
+    E.count_call("svd_with_truncation", operand, ((U, Uaxis), (V, Vaxis)))
     ctx.count("svd_with_truncation")
     obs = trunc_observe(ctx, "svd_with_truncation", E, ht, operand, left, right, U, S, V, sU, Un, Vn, Uaxis, Vaxis, w)
     if obs is None:
@@ -978,6 +1003,53 @@ def big_matrix(E):
     return D.gen_tensor(rng, E.nprng, E.sym, legs=legs, n=G.zero(E.sym), density=1.0)
 
 
+def empty_dict_clauses(ctx, E, rng, ht, operand, left, right, base, sU, nU, Un, Vn, Uaxis, Vaxis, full_raw, sec, anorm, maxD, w):
+    """Empty per-sector dictionaries.  D_block={}: no sector is listed, nothing is kept under either policy and the error is ||a||.
+    tol_block={}: the kept set is the same under policy='fullrank' and 'lowrank'.  k_block={} (lowrank only; fullrank ignores k_block):
+    the call must work and return well-formed factors of values of the spectrum with error = discarded norm."""
+    import yastn
+    which = rng.choice(("D_block", "D_block", "tol_block", "k_block"))
+    big = maxD + rng.randint(0, 3)
+    calls = {"D_block": [("fullrank", {"D_block": {}}), ("lowrank", {"D_block": {}})],
+             "tol_block": [("fullrank", {"tol_block": {}, "D_block": big}), ("lowrank", {"tol_block": {}, "D_block": big})],
+             "k_block": [("lowrank", {"k_block": {}}), ("fullrank", {"k_block": {}})]}[which]
+    extra = {}
+    if rng.random() < 0.4:
+        extra["D_total"] = rng.choice((1, 2, maxD, 2 * maxD))
+    kept_by_policy = {}
+    for policy, kw in calls:
+        w2 = dict(w, kwargs=kw_desc({**kw, **extra}), policy=policy)
+        U, S, V = yastn.svd_with_truncation(operand.y, policy=policy, Uaxis=Uaxis, Vaxis=Vaxis, **base, **kw, **extra)
+        ctx.count(f"empty_dict:{which}:{policy}")
+        obs = trunc_observe(ctx, "svd_with_truncation:empty-dict", E, ht, operand, left, right, U, S, V, sU, Un, Vn, Uaxis, Vaxis, w2)
+        if obs is None:
+            return
+        Um, s, Vm, keptb = obs
+        raw = {}
+        for t, v in keptb.items():
+            mk, raw[t] = match_kept(full_raw[t], full_raw[t], v, anorm) if t in full_raw else (None, None)
+            if mk is None:
+                ctx.violation("svd_with_truncation:empty-dict:kept-not-in-spectrum", f"{policy} {kw_desc(kw)}: sector {t} kept {v.tolist()[:6]}", w2)
+                return
+        disc = collections.Counter(cat(full_raw.values()).tolist())
+        disc.subtract(collections.Counter(cat(raw.values()).tolist()))
+        dn, err = F.norm_of(disc.items()), F.fro((Um * s[None, :]) @ Vm - sec.M)
+        if not ctx.margin("svd_with_truncation:empty-dict:error-identity", abs(err - dn), 1e-12 * max(anorm, 1e-300)):
+            ctx.violation("svd_with_truncation:empty-dict:error-identity", f"{policy} {kw_desc(kw)}: ||a - USV|| = {err:.6e}, discarded norm {dn:.6e}", w2)
+        kept_by_policy[policy] = {t: np.sort(v) for t, v in raw.items() if len(v)}
+        if which == "D_block" and len(s):
+            ctx.violation("svd_with_truncation:empty-D_block-dict", f"policy={policy}: D_block={{}} lists no sector but {len(s)} values are kept "
+                          f"(error {err:.3e}, ||a|| = {anorm:.3e})", w2)
+    if which != "k_block":
+        a_, b_ = kept_by_policy.get("fullrank", {}), kept_by_policy.get("lowrank", {})
+        same = set(a_) == set(b_) and all(a_[t].shape == b_[t].shape and np.allclose(a_[t], b_[t], rtol=1e-10, atol=0) for t in a_)
+        ctx.count("empty_dict_policies_compared")
+        if not same:
+            ctx.violation("svd_with_truncation:policy-dependence:empty-dict", f"{which}={{}}: fullrank keeps "
+                          f"{ {str(t): v.tolist()[:6] for t, v in a_.items()} }, lowrank keeps { {str(t): v.tolist()[:6] for t, v in b_.items()} }", w)
+    ctx.case(("svd-empty-dict", which, operand.sig(), sU, nU), True)
+
+
 def svd_lowrank_case(ctx, idx, sym):
     """svd_with_truncation(policy='lowrank'): at most D_block (k_block) triples per block are computed - block-wise full svd cut to k
     for small blocks, ARPACK for blocks with > 5000 elements and k < min(dims) - 1 - and then masked.  Same specification as fullrank,
@@ -999,6 +1071,15 @@ def svd_lowrank_case(ctx, idx, sym):
     # spectra with clear gaps (ratio 0.8 between consecutive values, all values of all sectors distinct): Arnoldi accuracy and ties are not the issue
     nsec = max(1, len(F.Sectors(ht, flatL, flatR, 1, ht.n).sec))
     ht = F.redesign_svd(rng, ht, flatL, flatR, values=lambda k, i: [0.8 ** (j + i / nsec) for j in range(k)])
+    csc = F.draw_scale(rng)
+    if big and csc != 1.0:
+        # scipy's svds works with A^H A: for ||a|| ~ 1e+-150 the squares leave the double range and ARPACK loses accuracy (observed 0.4 %
+        # at 1e-150) - a limit of the third-party solver, not judged; blocks that go through ARPACK get moderate factors only
+        csc = 1e-60 if csc < 1 else 1e60
+        ctx.count("lowrank_arpack_moderate_scale_only")
+    if csc != 1.0:
+        ht = F.scaled(ht, csc)
+        ctx.count("scaled_operands")
     r2 = random.Random()
     r2.setstate(state)
     operand = F.make_operand(r2, ht, E.cfg, fusion=fus)
@@ -1025,8 +1106,11 @@ def svd_lowrank_case(ctx, idx, sym):
     # the block-charge the library sees is the negated new-leg charge for these argument combinations (first column / row leg)
     s_col, s_row = ht.legs[flatR[0]].s, ht.legs[flatL[0]].s
     negated = (nU and sU != s_col) or ((not nU) and sU != -s_row)
-    form = rng.choice(("int", "dict", "dict", "dict", "k_int", "k_dict"))
     maxD = max(len(v) for v in full_raw.values())
+    if rng.random() < 0.15:
+        empty_dict_clauses(ctx, E, rng, ht, operand, left, right, base, sU, nU, Un, Vn, Uaxis, Vaxis, full_raw, sec, anorm, maxD, w)
+        return
+    form = rng.choice(("int", "dict", "dict", "dict", "k_int", "k_dict"))
     if form.endswith("int"):
         lim = rng.choice((1, 2, 3, max(maxD - 1, 1), maxD, maxD + 2) + ((5, 8, 12, 20) if big else ()))
     else:
@@ -1050,6 +1134,7 @@ def svd_lowrank_case(ctx, idx, sym):
     full = cluster(full_raw, rel)
     args = dict(policy="lowrank", Uaxis=Uaxis, Vaxis=Vaxis, **base, **kw)
     U, S, V = yastn.svd_with_truncation(operand.y, **args) if rng.random() < 0.7 else operand.y.svd_with_truncation(**args)
+    E.count_call("svd_with_truncation", operand, ((U, Uaxis), (V, Vaxis)))
     ctx.count("svd_with_truncation_lowrank")
     ctx.count("lowrank:" + form)
     ctx.count(f"lowrank:sU={sU},nU={nU}")
@@ -1148,8 +1233,36 @@ def eigh_trunc_case(ctx, idx, sym):
         dom = "signed"
     ctx.count("eigh_trunc:" + which + ":" + dom)
     w["kwargs"] = kw_desc(kw)
+    if rng.random() < 0.06:
+        # eigh_with_truncation(a, axes): everything else omitted.  The signature default is which='LR', the docstring marks 'SR' as the
+        # default, and with tol=0 the two discard opposite halves of the spectrum: WHICH values are kept is not judged, only that the
+        # call works, the factors are well formed and the error equals the norm of what was discarded
+        S, U = yastn.eigh_with_truncation(operand.y, axes)
+        ctx.count("pure_defaults:eigh_with_truncation")
+        fullS = F.diag_blocks(yastn.eigh(operand.y, axes)[0])          # same defaults (sU=1): same sector labels
+        full = cluster(fullS)
+        sec = F.Sectors(hp, flatL, flatR, 1, n0)
+        obs = trunc_observe(ctx, "eigh_with_truncation", E, hp, operand, left, right, U, S, None, 1, n0, n0, -1, 0, w)
+        if obs is not None:
+            Um, s_, _, keptb = obs
+            disc = collections.Counter(cat(fullS.values()).tolist())
+            ok_ = True
+            for t, v in keptb.items():
+                mk, raw = match_kept(fullS[t], full[t], np.real(v), anorm) if t in fullS else (None, None)
+                if mk is None:
+                    ctx.violation("eigh_with_truncation:kept-not-in-spectrum", f"defaults: sector {t}: kept {np.asarray(v).tolist()[:8]}", w)
+                    ok_ = False
+                    break
+                disc.subtract(collections.Counter(raw.tolist()))
+            if ok_:
+                err = F.fro((Um * s_[None, :]) @ Um.conj().T - sec.M)
+                if not ctx.margin("eigh_with_truncation:error-identity", abs(err - F.norm_of(disc.items())), 1e-11 * max(anorm, 1e-300)):
+                    ctx.violation("eigh_with_truncation:error-identity", f"defaults: ||a - U S U^+|| = {err:.6e}, discarded norm {F.norm_of(disc.items()):.6e}", w)
+        ctx.case(("eigh_trunc-defaults", operand.sig()), False)
+        return
     args = dict(axes=axes, sU=sU, Uaxis=Uaxis, which=which, **kw)
     S, U = yastn.eigh_with_truncation(operand.y, **args) if rng.random() < 0.7 else operand.y.eigh_with_truncation(**args)
+    E.count_call("eigh_with_truncation", operand, ((U, Uaxis),))
     ctx.count("eigh_with_truncation")
     if not thresholds_unambiguous(full, kw.get("tol_block", 0), kw.get("tol", 0)):
         ctx.count("unjudged:relative-tolerance-on-signed-values")
